@@ -188,6 +188,8 @@ func vh_direct_writer() {
 		vAssert(!held, "C07/direct/write-only-inside-critical-section")
 		vAssert(conn.writeCalls == 1 && vSameSlice(conn.lastWrite, p), "C07/direct/whole-frame-in-one-write")
 		vAssert(n == conn.writeN && (err == nil) == (n == L), "C07/direct/success-only-if-whole-frame-written")
+		vAssert(!(n == 0 && (errors.Is(err, context.Canceled) || errors.Is(err, context.DeadlineExceeded))) || conn.writeN == 0, "C01/writer/not-started-is-reported-only-if-no-byte-was-written")
+		vAssert(!(n == 0 && (errors.Is(err, context.Canceled) || errors.Is(err, context.DeadlineExceeded))) || conn.writeN == 0, "C06/writer/not-started-is-reported-only-if-no-byte-was-written")
 	} else {
 		vAssert(n == 0 && err != nil, "C07/direct/not-started-leaves-no-bytes")
 	}
@@ -262,6 +264,10 @@ func vh_coalesced_writer() {
 		vAssert(vSameSlice(req.data, p), "C07/coalesced/whole-frame-handed-over")
 		vAssert(n == vCoResult.n && err == vCoResult.err, "C07/coalesced/caller-gets-the-flushers-verdict")
 		vAssert((err == nil) == (n == L), "C07/coalesced/success-only-if-whole-frame-written")
+		// C01/C06: exec reads (n == 0, context error) as "the frame never started": it unregisters the call and
+		// frees the stream id. Bytes the flusher owns may still reach the server, so that answer is forbidden here.
+		vAssert(!(n == 0 && (errors.Is(err, context.Canceled) || errors.Is(err, context.DeadlineExceeded))), "C01/writer/not-started-is-reported-only-if-the-frame-was-never-handed-over")
+		vAssert(!(n == 0 && (errors.Is(err, context.Canceled) || errors.Is(err, context.DeadlineExceeded))), "C06/writer/not-started-is-reported-only-if-the-frame-was-never-handed-over")
 	}
 	vAssert(conn.writeCalls == 0, "C07/coalesced/caller-never-writes-itself")
 }
